@@ -27,6 +27,12 @@ HEADER = ("From Coq Require Import List String ZArith. Import ListNotations.\n"
           "Definition SCH := schema_of class_aliases.\n")
 FUEL = 90
 K_NESTED = "C13:process_object:duplicate-id-nested-in-own-definition-accepted"
+SLOT_NAMES = (["x", "parameter", "parameters", "taxa", "mu", "invariant", "shape", "kappa", "frequencies", "rates",
+               "branch_lengths", "tree_model", "rate", "full_like", "zeros_like", "ones_like", "eye_like", "type",
+               "tensor", "indices", "transform", "distribution", "distributions"] +
+              [f"{k}.{i}" for k in ("x", "parameters", "taxa", "distributions") for i in range(8)] +
+              [f"parameters.{a}" for a in ("loc", "scale", "rate", "concentration", "concentration1",
+                                           "concentration0", "exponent")])
 K_TRANSFORM = "C13:update-not-observed:TransformedParameter:parameters-of-the-transform"
 
 TORCH_SIGS = {
@@ -421,7 +427,13 @@ class Gen:
                 c[k] = self.fresh("nowhere")
             elif f == "forward" and self.refs:
                 c, k, ndone = rng.choice(self.refs)
-                later = [d[0] for d in self.done[ndone:]]     # not complete when the reference is read
+                kinds = {d[0]: d[1] for d in self.done}
+                k0 = kinds.get(c[k])
+                if k0 in (None, "taxon", "taxa"):
+                    continue      # the newick string names the taxa
+                # not complete (in generation order) when the reference is read; same kind, because the
+                # class may well process its keys in another order and resolve it after all
+                later = [d[0] for d in self.done[ndone:] if d[1] == k0 or (k0 == "p" and d[1] == "p1")]
                 if not later:
                     continue
                 c[k] = rng.choice(later)
@@ -549,7 +561,11 @@ class Interner:
         return self.names[s]
 
     def header(self):
-        return "".join(f"Definition {n} := {coq_string(s)}.\n" for s, n in self.names.items())
+        return ("".join(f"Definition {n} := {coq_string(s)}.\n" for s, n in self.names.items()) +
+                "Definition tbl : list string := [" + "; ".join(self.names.values()) + "].\n")
+
+    def table(self):
+        return list(self.names.keys())
 
 
 def coq_json(j, S):
@@ -604,7 +620,7 @@ def tok_json(j, out):
 def fp_json(j):
     h = 7
     for t in tok_json(j, []):
-        h = (h * 1000003 + t + 1) % 2305843009213693951
+        h = (31 * h + t + 1) & 1152921504606846975
     return h
 
 
@@ -821,8 +837,8 @@ def direct_checks(case, o, o_plain):
 # -------------------------------------------------------------------------- model outcomes
 
 class _Rd:
-    def __init__(self, xs):
-        self.xs, self.i = xs, 0
+    def __init__(self, xs, table):
+        self.xs, self.i, self.table = xs, 0, table
 
     def num(self):
         v = self.xs[self.i]
@@ -830,6 +846,9 @@ class _Rd:
         return v
 
     def str(self):
+        k = self.num()
+        if k >= 0:
+            return self.table[k]
         n = self.num()
         s = "".join(chr(c) for c in self.xs[self.i:self.i + n])
         self.i += n
@@ -870,8 +889,8 @@ def decode_show(rd):
     return dict(kind="parse", root=root, chain=chain)
 
 
-def decode_case(flat):
-    rd = _Rd(flat)
+def decode_case(flat, table):
+    rd = _Rd(flat, table)
     m_true = decode_show(rd)
     assert rd.num() == -1
     m_false = decode_show(rd)
@@ -883,7 +902,7 @@ def decode_case(flat):
 
 def coq_case(case, S):
     return (f"let j := {coq_json(case['spec'], S)} in "
-            f"show (load SCH true {FUEL}%nat j) ++ [(-1)%Z] ++ show (load SCH false {FUEL}%nat j) ++ "
+            f"show tbl (load SCH true {FUEL}%nat j) ++ [(-1)%Z] ++ show tbl (load SCH false {FUEL}%nat j) ++ "
             f"((-1)%Z :: fp_prepare {FUEL}%nat j)")
 
 
@@ -1407,7 +1426,7 @@ def run(tier, seed, replay=None):
     os.makedirs(work, exist_ok=True)
     spec_path = os.path.join(work, "spec.json")
 
-    ncases = 1400 if tier == "quick" else 20000
+    ncases = 800 if tier == "quick" else 12000
     if replay:
         r = json.load(open(replay))["replay"]
         cases = [dict(i=0, spec=r["spec"], plain=r.get("plain"), faults=["replay"], features=["replay"])]
@@ -1471,11 +1490,14 @@ def run(tier, seed, replay=None):
         # one set of interned strings per shard
         nshard = max(8, len(cases) // 16 + 1)
         res = []
-        jobs = []
+        jobs, tables = [], []
         for k in range(0, len(cases), nshard):
             S = Interner()
+            for w in list(t_classes.MODELLED) + SLOT_NAMES:
+                S(w)
             exprs = [coq_case(c, S) for c in cases[k:k + nshard]]
             jobs.append((HEADER + S.header(), exprs))
+            tables += [S.table()] * len(exprs)
         import concurrent.futures as cf
         with cf.ThreadPoolExecutor(max_workers=16) as ex:
             parts = list(ex.map(lambda a: C.run_cases(f"{PID}_s{a[0]:02d}", a[1][0], a[1][1], shard=100000, rtype="Z"),
@@ -1494,7 +1516,7 @@ def run(tier, seed, replay=None):
     urng = random.Random(seed + 2)
     for ci, c in enumerate(cases if res is not None else []):
         o = outs[ci]
-        m_true, m_false, fp_rc, fp_exp = decode_case(res[ci])
+        m_true, m_false, fp_rc, fp_exp = decode_case(res[ci], tables[ci])
         tag = model_tag(m_true)
         dist[tag] = dist.get(tag, 0) + 1
         rep.case(c["spec"], nontrivial=len(o["events"]) >= 3,
